@@ -196,7 +196,37 @@ func (r *replica) RestoreRemotes(ss pb.Snapshot) error {
 	r.c.checkCommitJustified(r)
 	err := r.peer.RestoreRemotes(ss)
 	r.c.checkCommitJustified(r)
+	if err == nil && !r.stopped {
+		// C18/C03: after a snapshot was restored raft's view of the membership
+		// (the sets its quorums are computed from) is the snapshot's membership
+		vs, ns, ws := r.vp.Members()
+		same := func(got []uint64, want map[uint64]string) bool {
+			if len(got) != len(want) {
+				return false
+			}
+			for _, id := range got {
+				if _, ok := want[id]; !ok {
+					return false
+				}
+			}
+			return true
+		}
+		m := ss.Membership
+		if !same(vs, m.Addresses) || !same(ns, m.NonVotings) || !same(ws, m.Witnesses) {
+			r.c.fail("C18: replica %d restored snapshot %d whose membership is voters %v non-voting %v witnesses %v, but raft now counts voters %v non-voting %v witnesses %v",
+				r.id, ss.Index, keysOf(m.Addresses), keysOf(m.NonVotings), keysOf(m.Witnesses), vs, ns, ws)
+		}
+	}
 	return err
+}
+
+func keysOf(m map[uint64]string) []uint64 {
+	out := make([]uint64, 0, len(m))
+	for k := range m {
+		out = append(out, k)
+	}
+	sort.Slice(out, func(i, j int) bool { return out[i] < out[j] })
+	return out
 }
 func (r *replica) ApplyUpdate(e pb.Entry, result sm.Result, rejected bool, ignored bool, notifyRead bool) {
 	r.c.onApplyUpdate(r, e, result, rejected, ignored)
